@@ -161,8 +161,13 @@ func init() {
 	// C06: valid chains surrounded by decoys, permutations, duplicates, link-only proofs
 	c06 := worldGen("C06", 2000, 40000, genOpts{maxDepth: 6, sessions: true, sessionPct: 25, caveats: true, caveatPct: 20,
 		kinds: []string{"none", "permute", "decoys", "dup", "missing", "nbf-ok", "deadend", "deadend", "permute", "expired", "wrongkey", "parsefail", "twincap", "deadend"}})
+	// a capability that matches the claim but fails one level up, listed before the one that succeeds
+	c06twin := worldGen("C06", 150, 3000, genOpts{minDepth: 2, maxDepth: 4, kinds: []string{"twinwide"}})
 	gens["C06"] = func(cfg Config, emit Emit) error {
 		if err := c06(cfg, emit); err != nil {
+			return err
+		}
+		if err := c06twin(cfg, emit); err != nil {
 			return err
 		}
 		// an account whose key the resolver knows, with an expired / foreign / stranger's attestation beside
